@@ -257,6 +257,20 @@ func init() {
 			case "dB", world.LocalAddr:
 				return "dA", true
 			}
+			// another valid value of the same enumeration: a sibling function of the feature, another feature
+			// type, role, classifier, state change
+			if y, ok := map[string]string{
+				"loadControlLimitListData": "loadControlLimitDescriptionListData", "loadControlLimitDescriptionListData": "loadControlLimitListData",
+				"nodeManagementDetailedDiscoveryData": "nodeManagementUseCaseData", "nodeManagementUseCaseData": "nodeManagementDetailedDiscoveryData",
+				"measurementListData": "measurementDescriptionListData",
+				"LoadControl":         "Measurement", "Measurement": "LoadControl", "NodeManagement": "LoadControl", "DeviceDiagnosis": "LoadControl",
+				"client": "server", "server": "client", "special": "client",
+				"read": "write", "write": "notify", "notify": "reply", "reply": "notify", "call": "read", "result": "reply",
+				"added": "removed", "removed": "modified", "modified": "added",
+				"CEM": "EV", "DeviceInformation": "CEM", "EnergyManagementSystem": "ChargingStation", "smart": "simple",
+			}[x]; ok {
+				return y, true
+			}
 		case float64:
 			return x + 1, true
 		}
